@@ -5,7 +5,6 @@ use rand::Rng;
 use serde_json::{json, Value};
 
 use crate::describe::*;
-use crate::outcome::*;
 use crate::Ctx;
 
 fn tables(inp: &Value) -> Value {
